@@ -28,6 +28,8 @@ type gen struct {
 	pkts    []gPkt
 	acks    []gAck
 	tssSeen map[[2]int]bool // (chain, seq) of TSS packets expected to be received already
+	tssSent map[int]bool    // chains that have sent a packet to their TSS-secured name
+	ethSent map[[2]int]bool // (chain, -3 | -4): chains that have sent a packet to their Ethereum / BSC secured name
 }
 
 func pick(r *hlib.Rand, weights []int) int {
@@ -47,19 +49,20 @@ func pick(r *hlib.Rand, weights []int) int {
 
 func (g *gen) other(c int) int { return (c + 1 + g.r.Intn(nChains-1)) % nChains }
 
-var kinds = []string{"send", "send_raw", "recv", "recv_tss", "ack", "update", "block", "reg_relayer"}
+var kinds = []string{"send", "send_raw", "recv", "recv_tss", "ack", "update", "block", "reg_relayer", "send_multi", "ack_tss", "recv_eth", "ack_eth"}
 
 var kindWeights = map[string][]int{
-	//        send raw recv tss ack upd blk reg
-	"c01": {25, 5, 35, 6, 15, 7, 6, 1},
-	"c02": {22, 5, 30, 5, 22, 8, 6, 2},
-	"c04": {36, 20, 16, 4, 12, 6, 5, 1},
-	"c05": {20, 2, 25, 5, 40, 4, 3, 1},
+	//        send raw recv tss ack upd blk reg multi acktss recveth acketh
+	"c01": {25, 5, 35, 6, 15, 7, 6, 1, 3, 2, 3, 1},
+	"c02": {22, 5, 28, 5, 20, 8, 6, 2, 3, 4, 7, 5},
+	"c04": {30, 18, 16, 4, 12, 6, 5, 1, 10, 2, 1, 1},
+	"c05": {20, 2, 25, 5, 36, 4, 3, 1, 3, 7, 2, 3},
 }
 
 var recvAlters = []string{"payload", "calldata", "sender", "callback", "feeopt", "swap", "seq+1", "seq-1", "src", "dst",
-	"proof_other", "proof_flip", "proof_empty", "height-1", "height+1", "height_old", "garbage", "empty"}
-var ackAlters = []string{"ackbytes", "packet_payload", "seq+1", "swap", "proof_other", "proof_flip", "height-1", "height+1", "garbage_ack", "garbage_packet"}
+	"proof_other", "proof_flip", "proof_empty", "height-1", "height+1", "height_old", "height0", "garbage", "empty"}
+var ackAlters = []string{"ackbytes", "packet_payload", "seq+1", "swap", "proof_other", "proof_flip", "height-1", "height+1", "height0", "garbage_ack", "garbage_packet",
+	"sender", "feeopt", "callback", "calldata"}
 var encs = []string{"trailing", "gap", "dirtypad"}
 
 func (g *gen) relayer() int { return pick(g.r, []int{80, 12, 8}) }
@@ -140,6 +143,42 @@ func (g *gen) genSend() {
 	g.add(Op{K: "send", Chain: c, Dst: dst, Variant: variant, Amount: amount, Fee: fee, Commit: g.r.Chance(commitP, 10)})
 	if dst != -1 && !(amount == 0 && (variant == "erc20" || variant == "base" || variant == "notrace")) {
 		g.pkts = append(g.pkts, gPkt{src: c, dst: dst, ackIdx: -1})
+	}
+}
+
+// genSendMulti: one transaction with 2-3 sends.  About half of them are valid as a whole (pairwise different known
+// destinations: every leg must get its commitment and its counter step); the others contain a leg that SendPacket
+// refuses (a destination repeated: the contract numbers both legs with the same sequence; an unknown destination) at
+// the first, a middle or the last position: the whole transaction must change nothing.
+func (g *gen) genSendMulti() {
+	c := g.r.Intn(nChains)
+	valid := []int{(c + 1) % nChains, (c + 2) % nChains, -2}
+	// shuffle
+	for i := len(valid) - 1; i > 0; i-- {
+		j := g.r.Intn(i + 1)
+		valid[i], valid[j] = valid[j], valid[i]
+	}
+	n := 2 + g.r.Intn(2)
+	legs := []Leg{}
+	for i := 0; i < n; i++ {
+		v := []string{"base", "erc20", "call"}[pick(g.r, []int{50, 30, 20})]
+		legs = append(legs, Leg{Dst: valid[i], Variant: v, Amount: uint64(1 + g.r.Intn(500))})
+	}
+	ok := true
+	if g.r.Chance(45, 100) {
+		ok = false
+		at := g.r.Intn(n)
+		if g.r.Chance(1, 2) {
+			legs[at].Dst = -1 // unknown destination
+		} else {
+			legs[at].Dst = legs[(at+1)%n].Dst // same destination twice: second one carries a wrong sequence
+		}
+	}
+	g.add(Op{K: "send_multi", Chain: c, Legs: legs, Commit: g.r.Chance(6, 10)})
+	if ok {
+		for _, l := range legs {
+			g.pkts = append(g.pkts, gPkt{src: c, dst: l.Dst, ackIdx: -1})
+		}
 	}
 }
 
@@ -317,6 +356,8 @@ func (g *gen) genOp() {
 		g.genSend()
 	case "send_raw":
 		g.genSendRaw()
+	case "send_multi":
+		g.genSendMulti()
 	case "recv":
 		g.genRecv()
 	case "recv_tss":
@@ -324,6 +365,13 @@ func (g *gen) genOp() {
 		variant := []string{"transfer", "junk", "junkcall"}[pick(g.r, []int{40, 35, 25})]
 		op := Op{K: "recv_tss", Chain: c, Seq: uint64(1 + g.r.Intn(4)), DstSelf: !g.r.Chance(15, 100),
 			Relayer: pick(g.r, []int{70, 15, 15}), Variant: variant, Commit: g.r.Chance(7, 10)}
+		if g.r.Chance(1, 10) {
+			op.Mal = "height0" // zero proof height: ValidateBasic refuses what the TSS client would let through
+		}
+		if g.r.Chance(1, 8) {
+			// a source chain for which no client exists (RecvPacket: client not found), addressed to this chain
+			op.Src, op.Dst, op.DstSelf = unknownChain, c, false
+		}
 		g.add(op)
 		if k := [2]int{c, int(op.Seq)}; op.DstSelf && op.Relayer == 0 && !g.tssSeen[k] {
 			g.tssSeen[k] = true
@@ -331,6 +379,36 @@ func (g *gen) genOp() {
 		}
 	case "ack":
 		g.genAck()
+	case "ack_tss":
+		// a packet to the TSS-secured name first (if this history has none yet), then its acknowledgement
+		c := g.r.Intn(nChains)
+		if !g.tssSent[c] || g.r.Chance(1, 3) {
+			g.tssSent[c] = true
+			g.add(Op{K: "send", Chain: c, Dst: -2, Variant: []string{"erc20", "base"}[g.r.Intn(2)], Amount: uint64(1 + g.r.Intn(100)), Fee: uint64(g.r.Intn(4)), Commit: g.r.Chance(7, 10)})
+			g.pkts = append(g.pkts, gPkt{src: c, dst: -2, ackIdx: -1})
+		}
+		variant := []string{"good", "err", "garbage", "zero", "badrelayer", "emptyack"}[pick(g.r, []int{40, 18, 12, 12, 12, 6})]
+		mal := ""
+		if g.r.Chance(1, 10) {
+			mal = "height0"
+		}
+		g.add(Op{K: "ack_tss", Chain: c, Pkt: g.r.Intn(4), Variant: variant, Mal: mal, Relayer: pick(g.r, []int{80, 12, 8}), Commit: g.r.Chance(7, 10)})
+	case "recv_eth":
+		variant := []string{"good", "decoy", "otherslot", "payload", "ackslot", "height+1", "height-1", "nodelay", "future", "emptyproof"}[pick(g.r, []int{46, 10, 9, 9, 5, 4, 4, 6, 3, 4})]
+		g.add(Op{K: "recv_eth", Chain: g.r.Intn(nChains), Seq: uint64(1 + g.r.Intn(3)), Variant: variant, Type: []string{"", "bsc"}[g.r.Intn(2)], Relayer: pick(g.r, []int{80, 12, 8}), Commit: g.r.Chance(7, 10)})
+	case "ack_eth":
+		c := g.r.Intn(nChains)
+		typ, dst := "", -3
+		if g.r.Bool() {
+			typ, dst = "bsc", -4
+		}
+		if !g.ethSent[[2]int{c, dst}] || g.r.Chance(1, 2) {
+			g.ethSent[[2]int{c, dst}] = true
+			g.add(Op{K: "send", Chain: c, Dst: dst, Variant: []string{"erc20", "base"}[g.r.Intn(2)], Amount: uint64(1 + g.r.Intn(100)), Fee: uint64(g.r.Intn(4)), Commit: g.r.Chance(7, 10)})
+			g.pkts = append(g.pkts, gPkt{src: c, dst: dst, ackIdx: -1})
+		}
+		variant := []string{"good", "decoy", "otherslot", "commitslot", "ackbytes", "nodelay"}[pick(g.r, []int{46, 14, 10, 10, 10, 10})]
+		g.add(Op{K: "ack_eth", Chain: c, Pkt: g.r.Intn(4), Variant: variant, Type: typ, Relayer: pick(g.r, []int{80, 12, 8}), Commit: g.r.Chance(7, 10)})
 	case "update":
 		c := g.r.Intn(nChains)
 		g.add(Op{K: "update", Chain: c, Peer: g.other(c), Relayer: pick(g.r, []int{85, 8, 7}), Commit: g.r.Chance(7, 10)})
@@ -366,7 +444,7 @@ func (g *gen) happy(a, b int, variant string, explicitUpdates bool) {
 }
 
 func genSpec(r *hlib.Rand, seed uint64, idx, steps int, focus string) Spec {
-	g := &gen{r: r, focus: focus, tssSeen: map[[2]int]bool{}}
+	g := &gen{r: r, focus: focus, tssSeen: map[[2]int]bool{}, tssSent: map[int]bool{}, ethSent: map[[2]int]bool{}}
 	s := Spec{Case: idx, Seed: seed, Focus: focus}
 	switch {
 	case idx == 0:
@@ -408,6 +486,8 @@ func genSpec(r *hlib.Rand, seed uint64, idx, steps int, focus string) Spec {
 		g.add(Op{K: "send", Chain: 0, Dst: 1, Variant: "erc20", Amount: 50, Fee: 0, Commit: true})
 		g.add(Op{K: "ack", Chain: 0, Ack: 0, Relayer: 0, FreshProof: true, Commit: true})
 		g.add(Op{K: "ack", Chain: 0, Ack: 1, Relayer: 0, FreshProof: true, Commit: true})
+		// with the self-named client the message server's "dstChain not found" error acknowledgement is reachable
+		g.add(Op{K: "recv_tss", Chain: 0, Seq: 9, Src: "self", Dst: -1, Relayer: 0, Variant: "junk", Commit: true})
 	case idx == 1:
 		// corpus: duplicates and re-encodings
 		g.add(Op{K: "send", Chain: 0, Dst: 1, Variant: "base", Amount: 100, Fee: 2, Commit: true})
@@ -428,6 +508,131 @@ func genSpec(r *hlib.Rand, seed uint64, idx, steps int, focus string) Spec {
 		g.add(Op{K: "ack", Chain: 0, Ack: 1, Relayer: 0, FreshProof: true, Commit: true})
 		g.add(Op{K: "ack", Chain: 1, Ack: 2, Relayer: 0, FreshProof: true, Commit: true})
 		g.add(Op{K: "ack", Chain: 1, Ack: 2, Relayer: 0, FreshProof: true, Commit: true})
+	case idx == 2:
+		// corpus: transactions carrying SEVERAL sends (a contract calling Endpoint.crossChainCall more than once).
+		// Every send of an accepted transaction gets its commitment and counter step; a transaction with a send that
+		// SendPacket refuses (first, middle or last position) changes nothing.  Pool indices in comments.
+		base := func(d int, a uint64) Leg { return Leg{Dst: d, Variant: "base", Amount: a} }
+		g.add(Op{K: "send", Chain: 0, Dst: 1, Variant: "erc20", Amount: 100, Fee: 1, Commit: true})                                                               // 0: (A,B,1)
+		g.add(Op{K: "send_multi", Chain: 0, Legs: []Leg{base(1, 100), base(2, 70)}, Commit: true})                                                                // 1: (A,B,2)  2: (A,C,1)
+		g.add(Op{K: "send_multi", Chain: 0, Legs: []Leg{base(1, 10), base(1, 20)}, Commit: false})                                                                // B twice: rejected
+		g.add(Op{K: "send_multi", Chain: 0, Legs: []Leg{base(2, 5), base(-1, 6)}, Commit: false})                                                                 // unknown last: rejected
+		g.add(Op{K: "send_multi", Chain: 0, Legs: []Leg{base(-1, 6), base(2, 5)}, Commit: true})                                                                  // unknown first: rejected
+		g.add(Op{K: "send_multi", Chain: 0, Legs: []Leg{base(-2, 5), {Dst: 2, Variant: "erc20", Amount: 7}, {Dst: 1, Variant: "call", Amount: 9}}, Commit: true}) // 3: (A,tss-0,1) 4: (A,C,2) 5: (A,B,3)
+		g.add(Op{K: "send_multi", Chain: 0, Legs: []Leg{base(1, 3), base(2, 4), base(1, 5)}, Commit: true})                                                       // B first and last: rejected
+		g.add(Op{K: "send_multi", Chain: 1, Legs: []Leg{base(0, 11), base(0, 12)}, Commit: false})                                                                // rejected
+		g.add(Op{K: "send_multi", Chain: 1, Legs: []Leg{base(2, 3), {Dst: 0, Variant: "erc20", Amount: 4}}, Commit: true})                                        // 6: (B,C,1) 7: (B,A,1)
+		g.add(Op{K: "send", Chain: 0, Dst: 2, Variant: "base", Amount: 8, Fee: 0, Commit: true})                                                                  // 8: (A,C,3)
+		// keeper-level SendPacket, one refusal reason at a time (none of them enters the pool), on chain C
+		for _, x := range []struct {
+			d   int
+			mal string
+			dst int
+		}{{1, "", 0}, {-1, "", 0}, {0, "nodata", 0}, {0, "srcwrong", 0}, {0, "srceqdst", 0}, {0, "seq0", 0}, {0, "", -1}} {
+			g.add(Op{K: "send_raw", Chain: 2, Dst: x.dst, SeqDelta: x.d, Mal: x.mal, Commit: false})
+		}
+		for _, x := range [][2]int{{1, 1}, {2, 2}, {2, 4}, {1, 5}, {1, 0}, {2, 6}, {0, 7}, {2, 8}} {
+			g.add(Op{K: "recv", Chain: x[0], Pkt: x[1], Relayer: 0, FreshProof: true, Commit: true})
+		}
+		g.add(Op{K: "recv", Chain: 2, Pkt: 2, Relayer: 0, FreshProof: true, Commit: true}) // duplicate
+		for a := 0; a < 8; a++ {
+			src := 0
+			if a == 5 || a == 6 {
+				src = 1
+			}
+			g.add(Op{K: "ack", Chain: src, Ack: a, Relayer: 0, FreshProof: true, Commit: true})
+		}
+		g.add(Op{K: "ack", Chain: 0, Ack: 1, Relayer: 0, FreshProof: true, Commit: true}) // duplicate
+		// acknowledgements of (A,tss-0,1) (pool 3) through the TSS client: the signer is the only proof
+		g.add(Op{K: "send", Chain: 0, Dst: -2, Variant: "erc20", Amount: 9, Fee: 2, Commit: true})                           // 9: (A,tss-0,2)
+		g.add(Op{K: "ack_tss", Chain: 0, Pkt: 0, Variant: "good", Relayer: 1, Commit: true})                                 // wrong signer: rejected
+		g.add(Op{K: "ack_tss", Chain: 0, Pkt: 0, Variant: "garbage", Relayer: 0, Commit: true})                              // undecodable ack: rejected
+		g.add(Op{K: "ack_tss", Chain: 0, Pkt: 0, Variant: "zero", Relayer: 0, Commit: true})                                 // all-zero ack: rejected
+		g.add(Op{K: "ack_tss", Chain: 0, Pkt: 0, Variant: "badrelayer", Relayer: 0, Commit: true})                           // unknown relayer: rejected
+		g.add(Op{K: "ack_tss", Chain: 0, Pkt: 0, Variant: "good", Mal: "height0", Relayer: 0, Commit: true})                 // zero height: ValidateBasic
+		g.add(Op{K: "ack_tss", Chain: 0, Pkt: 0, Variant: "emptyack", Relayer: 0, Commit: true})                             // empty ack bytes: ValidateBasic
+		g.add(Op{K: "ack_tss", Chain: 0, Pkt: 0, Variant: "good", Relayer: 0, Commit: true})                                 // accepted
+		g.add(Op{K: "ack_tss", Chain: 0, Pkt: 0, Variant: "err", Relayer: 0, Commit: true})                                  // second ack: rejected
+		g.add(Op{K: "ack_tss", Chain: 0, Pkt: 1, Variant: "err", Relayer: 0, Commit: true})                                  // error ack of (A,tss-0,2): refund
+		g.add(Op{K: "recv_tss", Chain: 1, Seq: 1, Src: unknownChain, Dst: 1, Relayer: 0, Variant: "junk", Commit: true})     // no client for the source
+		g.add(Op{K: "recv_tss", Chain: 1, Seq: 5, DstSelf: true, Relayer: 0, Variant: "junk", Mal: "height0", Commit: true}) // zero height: ValidateBasic
+		g.add(Op{K: "recv_tss", Chain: 1, Seq: 5, DstSelf: true, Relayer: 0, Variant: "junk", Commit: true})                 // accepted
+	case idx == 3:
+		// corpus: ONE guard at a time.  Every message below is a genuine, provable message with exactly one thing
+		// altered, offered while the genuine one is still pending (so only the guard in question stands between the
+		// message and its acceptance); the genuine message follows and must be accepted.
+		g.add(Op{K: "send", Chain: 0, Dst: 1, Variant: "erc20", Amount: 100, Fee: 2, Commit: true}) // pool 0: (A,B,1)
+		g.add(Op{K: "send", Chain: 0, Dst: 1, Variant: "base", Amount: 50, Fee: 1, Commit: true})   // pool 1: (A,B,2)
+		g.add(Op{K: "send", Chain: 1, Dst: 2, Variant: "call", Amount: 7, Fee: 0, Commit: true})    // pool 2: (B,C,1)
+		for i, a := range []string{"payload", "feeopt", "sender", "callback", "calldata", "seq+1", "seq-1", "swap", "src", "dst",
+			"height+1", "height-1", "proof_other", "proof_flip", "proof_empty"} {
+			g.add(Op{K: "recv", Chain: 1, Pkt: 0, Alter: []string{a}, Relayer: 0, FreshProof: i == 0, Commit: i%4 == 3})
+		}
+		g.add(Op{K: "recv", Chain: 1, Pkt: 0, Relayer: 2, FreshProof: false, Commit: false}) // unregistered relayer
+		g.add(Op{K: "recv", Chain: 1, Pkt: 0, Relayer: 0, FreshProof: false, Commit: false}) // genuine: accepted
+		g.add(Op{K: "recv", Chain: 1, Pkt: 0, Enc: "gap", Relayer: 1, FreshProof: false, Commit: true})
+		g.add(Op{K: "recv", Chain: 1, Pkt: 1, Relayer: 1, FreshProof: true, Commit: true}) // second relayer: accepted
+		g.add(Op{K: "recv", Chain: 2, Pkt: 2, Relayer: 0, FreshProof: true, Commit: true})
+		for i, a := range []string{"packet_payload", "feeopt", "sender", "callback", "calldata", "seq+1", "swap", "ackbytes",
+			"height+1", "height-1", "proof_other", "proof_flip", "garbage_ack", "garbage_packet"} {
+			g.add(Op{K: "ack", Chain: 0, Ack: 0, Alter: []string{a}, Relayer: 0, FreshProof: i == 0, Commit: i%4 == 3})
+		}
+		g.add(Op{K: "ack", Chain: 0, Ack: 0, Relayer: 2, FreshProof: false, Commit: false}) // genuine, unregistered signer (no signer check on acks)
+		g.add(Op{K: "ack", Chain: 0, Ack: 0, Relayer: 0, FreshProof: false, Commit: true})  // duplicate or first
+		g.add(Op{K: "ack", Chain: 0, Ack: 1, Alter: []string{"packet_payload"}, Relayer: 0, FreshProof: true, Commit: true})
+		g.add(Op{K: "ack", Chain: 0, Ack: 1, Relayer: 1, FreshProof: true, Commit: true})
+		g.add(Op{K: "ack", Chain: 0, Ack: 1, Relayer: 0, FreshProof: true, Commit: true})
+		g.add(Op{K: "ack", Chain: 1, Ack: 2, Alter: []string{"sender"}, Relayer: 0, FreshProof: true, Commit: true})
+		g.add(Op{K: "ack", Chain: 1, Ack: 2, Relayer: 0, FreshProof: true, Commit: true})
+		// destination executions that FAIL: by EVM error (call data the packet contract cannot decode: the message
+		// server writes the error acknowledgement) and by result code (token without trace: code 2).  Receipt and
+		// acknowledgement must persist although the callback's branch is dropped: the duplicate is refused, the
+		// acknowledgement is processed once on the source.
+		g.add(Op{K: "send_raw", Chain: 1, Dst: 2, Mal: "junkcall", Commit: true})                      // pool 3: (B,C,2)
+		g.add(Op{K: "send", Chain: 0, Dst: 1, Variant: "notrace", Amount: 9, Fee: 1, Commit: true})    // pool 4: (A,B,3)
+		g.add(Op{K: "send", Chain: 0, Dst: 1, Variant: "callrevert", Amount: 6, Fee: 0, Commit: true}) // pool 5: (A,B,4)
+		for _, x := range [][2]int{{2, 3}, {1, 4}, {1, 5}} {
+			g.add(Op{K: "recv", Chain: x[0], Pkt: x[1], Relayer: 0, FreshProof: true, Commit: false}) // accepted, ack 3 / 4 / 5
+			g.add(Op{K: "recv", Chain: x[0], Pkt: x[1], Relayer: 0, FreshProof: false, Commit: true}) // duplicate in the same block
+			g.add(Op{K: "recv", Chain: x[0], Pkt: x[1], Relayer: 1, FreshProof: true, Commit: true})  // duplicate later
+		}
+		g.add(Op{K: "ack", Chain: 1, Ack: 3, Relayer: 0, FreshProof: true, Commit: true})
+		g.add(Op{K: "ack", Chain: 0, Ack: 4, Relayer: 0, FreshProof: true, Commit: true})
+		g.add(Op{K: "ack", Chain: 0, Ack: 4, Relayer: 0, FreshProof: true, Commit: true}) // duplicate
+		g.add(Op{K: "ack", Chain: 0, Ack: 5, Relayer: 0, FreshProof: true, Commit: true})
+		// a duplicate acknowledgement while ANOTHER packet's fee waits in the packet contract (the contract itself
+		// has no replay protection: with funds available a second sendPacketFeeToRelayer succeeds): only the deleted
+		// commitment stands between the duplicate and a second pay-out
+		g.add(Op{K: "send", Chain: 0, Dst: 1, Variant: "erc20", Amount: 20, Fee: 5, Commit: true}) // pool 6: (A,B,5), fee pending
+		g.add(Op{K: "ack", Chain: 0, Ack: 0, Relayer: 0, FreshProof: true, Commit: true})          // duplicate of the first acknowledgement
+		g.add(Op{K: "ack", Chain: 0, Ack: 1, Relayer: 0, FreshProof: false, Commit: true})         // and of the second
+	case idx == 4:
+		// corpus: an Ethereum-secured counterparty (MPT storage proofs).  One alteration at a time: a genuine proof
+		// of ANOTHER storage slot (decoy: a slot that really holds this packet's commitment / this acknowledgement's
+		// hash but is not the slot of (src,dst,seq); the slot of another sequence; the acknowledgement slot), an
+		// altered packet with the genuine proof, heights without consensus state, no proof; then the genuine message.
+		for ti, typ := range []string{"", "bsc"} {
+			dst := -3 - ti
+			for i, v := range []string{"decoy", "otherslot", "payload", "ackslot", "height+1", "height-1", "nodelay", "future", "emptyproof"} {
+				g.add(Op{K: "recv_eth", Chain: ti, Seq: 1, Variant: v, Type: typ, Relayer: 0, Commit: i%3 == 2})
+			}
+			g.add(Op{K: "recv_eth", Chain: ti, Seq: 1, Variant: "good", Type: typ, Relayer: 2, Commit: false}) // unregistered relayer
+			g.add(Op{K: "recv_eth", Chain: ti, Seq: 1, Variant: "good", Type: typ, Relayer: 0, Commit: false}) // accepted
+			g.add(Op{K: "recv_eth", Chain: ti, Seq: 1, Variant: "good", Type: typ, Relayer: 0, Commit: true})  // duplicate
+			g.add(Op{K: "recv_eth", Chain: ti, Seq: 2, Variant: "good", Type: typ, Relayer: 0, Commit: true})
+			for k := 0; k < 4; k++ {
+				g.add(Op{K: "send", Chain: ti, Dst: dst, Variant: []string{"erc20", "base"}[k%2], Amount: uint64(10 + k), Fee: uint64(k % 3), Commit: k%2 == 1}) // (X, eth-i | bsc-i, k+1)
+			}
+			for i, v := range []string{"decoy", "otherslot", "commitslot", "ackbytes", "nodelay"} {
+				g.add(Op{K: "ack_eth", Chain: ti, Pkt: 0, Variant: v, Type: typ, Relayer: 0, Commit: i%2 == 1})
+			}
+			g.add(Op{K: "ack_eth", Chain: ti, Pkt: 0, Variant: "good", Type: typ, Relayer: 0, Commit: false}) // accepted
+			g.add(Op{K: "ack_eth", Chain: ti, Pkt: 0, Variant: "good", Type: typ, Relayer: 0, Commit: true})  // duplicate
+			g.add(Op{K: "ack_eth", Chain: ti, Pkt: 3, Variant: "good", Type: typ, Relayer: 0, Commit: true})  // sequence 4: its slot is empty
+			g.add(Op{K: "ack_eth", Chain: ti, Pkt: 3, Variant: "decoy", Type: typ, Relayer: 0, Commit: true}) // sequence 4: the hash exists under the decoy key only
+			g.add(Op{K: "ack_eth", Chain: ti, Pkt: 1, Variant: "good", Type: typ, Relayer: 1, Commit: true})
+		}
+		g.add(Op{K: "recv_eth", Chain: 2, Seq: 3, Variant: "good", Relayer: 0, Commit: true})
 	default:
 		if r.Bool() {
 			g.happy(0, 1, "erc20", true)
